@@ -93,10 +93,14 @@ func buildOpenhow(how int) nfsv4.Openflag4 {
 	return &nfsv4.Openflag4_default{Opentype: nfsv4.OPEN4_NOCREATE}
 }
 
-func buildClaim(claim int, name string) nfsv4.OpenClaim4 {
+var delegTypes = [...]nfsv4.OpenDelegationType4{nfsv4.OPEN_DELEGATE_NONE, nfsv4.OPEN_DELEGATE_READ, nfsv4.OPEN_DELEGATE_WRITE}
+
+var delegNames = [...]string{"none", "read", "write"}
+
+func buildClaim(claim int, name string, delegType int) nfsv4.OpenClaim4 {
 	switch claim {
 	case claimPrevious:
-		return &nfsv4.OpenClaim4_CLAIM_PREVIOUS{DelegateType: nfsv4.OPEN_DELEGATE_NONE}
+		return &nfsv4.OpenClaim4_CLAIM_PREVIOUS{DelegateType: delegTypes[delegType]}
 	case claimFH:
 		return &nfsv4.OpenClaim4_CLAIM_FH{}
 	case claimDelegateCur:
